@@ -87,6 +87,14 @@ func genRun(j genJob) *trace.Scenario {
 		sc.Reset = []any{kind, j.a, j.b, j.narrow, v0, j.cycles, j.kind}
 		prev := v0
 		for c := 1; c <= j.cycles; c++ {
+			if cross > 0 && c%(cross*3) == 1 {
+				// the observed channel's own duty / length register rewritten while it plays: the position goes on
+				if j.kind == "sq1x" {
+					m.M.Write(0xff11, uint8(c*64))
+				} else {
+					m.M.Write(0xff16, uint8(c*64))
+				}
+			}
 			if cross > 0 && c%cross == 0 {
 				if j.kind == "sq1x" {
 					m.M.Write(0xff17, 0xf0)
